@@ -160,6 +160,10 @@ impl Prop for C13 {
         vec![("accepted_truncations", tier.pick(20, 500)), ("rejected_by_codec", tier.pick(1000, 30000)), ("synth_accepted", tier.pick(2000, 50000))]
     }
 
+    fn fuzz_targets(&self) -> Vec<(&'static str, u64)> {
+        vec![("fuzz_open", 250_000)]
+    }
+
     fn run(&self, case: &Case, obs: &mut Obs) -> Check {
         match case {
             Case::File { spec, v1 } => {
